@@ -24,7 +24,7 @@ PROP = {
     "audit_module": "Audit.C02",
     "theorems": [
         "Wm.Handle.handler_called_first_once", "Wm.Handle.settles_exactly_once", "Wm.Handle.settle_is_last_before_done",
-        "Wm.Handle.ack_iff", "Wm.Handle.nack_iff", "Wm.Handle.not_ack_and_nack",
+        "Wm.Handle.ack_iff", "Wm.Handle.ack_iff_with", "Wm.Handle.nack_iff", "Wm.Handle.not_ack_and_nack",
         "Wm.Handle.nack_on_error", "Wm.Handle.nack_on_panic", "Wm.Handle.nack_on_publish_failure", "Wm.Handle.nopub_outputs_nack",
         "Wm.Handle.publish_before_ack", "Wm.Handle.publish_before_ack_idx",
         "Wm.Handle.no_publish_on_error", "Wm.Handle.no_publish_on_panic",
@@ -41,10 +41,10 @@ PROP = {
     "nontrivial": nontrivial,
     "rule": "run: a real message.Router (one per case) with a scripted subscriber, handler and publisher. Exhaustive matrix: handler kind "
             "{AddHandler+publisher, AddHandler+nil publisher, AddNoPublisherHandler, AddNoPublisherHandler+recording publisher decorator} x "
-            "middleware prefix {-, p, o, po, op, oo, P, O, pO, Op} (p passthrough, o output-adding; lower case router level, upper case "
-            "handler level) x handler self-settlement {none, Ack, Nack} x result "
-            "{0/1/3 outputs; plain error with 0/1/3 outputs; context.Canceled with 0/2 outputs; panic(value|error|nil)} x publisher "
-            "{accept, error, panic}; plus seeded batches of 2..64 messages in flight together on one handler (all handlers parked at a gate, "
+            "middleware prefix {-, p, o, po, op, oo, P, O, pO, Op, r, R, ro, or} (p passthrough, o output-adding, r rebuilds the output "
+            "slice = empty but non-nil when there are no outputs; lower case router level, upper case handler level) x handler self-settlement {none, Ack, Nack} x result "
+            "{0 outputs as nil slice and as empty non-nil slice, 1/3 outputs; plain error with 0/1/3 outputs; context.Canceled with 0/2 outputs; panic(value|error|nil)} x publisher "
+            "{accept, error, panic, refuse-iff-the-call-contains-output-k for k = 0,1,2 and the middleware outputs}; plus seeded batches of 2..64 messages in flight together on one handler (all handlers parked at a gate, "
             "released in seeded order, half of them overlapping; in every other batch all publishing messages are additionally parked "
             "inside Publish together and released in a second seeded order), second half of the batches (and, thorough, a second pass over the matrix) "
             "with yield injection at router.handle.start/before_publish/before_settle and inside Publish. The publisher samples the "
